@@ -313,6 +313,9 @@ type PosWriter struct {
 	Calls    int
 	FailCall int
 	Short    bool
+	// Full: the failing call takes ALL of the data and still returns the error - (len(p), err), which io.Writer allows
+	// (a framing writer that has buffered the payload when the flush underneath fails)
+	Full bool
 	// Transient: only call FailCall fails (nothing is taken); later calls succeed again.
 	Transient bool
 	Hit       bool
@@ -330,6 +333,10 @@ func (w *PosWriter) Write(p []byte) (int, error) {
 		e := w.Err
 		if e == nil {
 			e = ErrInjected
+		}
+		if w.Full {
+			w.Buf = append(w.Buf, p...)
+			return len(p), e
 		}
 		if w.Short && len(p) > 1 {
 			w.Buf = append(w.Buf, p[:len(p)/2]...)
